@@ -475,7 +475,7 @@ def execSetLocal : M Ctl := do
   let f ← curFrame
   let index := f.bp + idx
   match (← stackGet index) with
-  | .box a => heapSet a (.box value)
+  | .box a => boxSet a value
   | _ => stackSet index value
   setSp (sp - 1); stackSet (sp - 1) .nil; bumpIp 1; return .next
 
@@ -763,7 +763,7 @@ def execSetFree : M Ctl := do
     match fr[idx]? with
     | none => panic s!"runtime error: index out of range [{idx}] with length {fr.length}"
     | some a =>
-      heapSet a (.box (← stackGet (sp - 1)))
+      boxSet a (← stackGet (sp - 1))
       setSp (sp - 1); stackSet (sp - 1) .nil; bumpIp 1; return .next
 
 def execGetLocalPtr : M Ctl := do
